@@ -149,7 +149,7 @@ package shutterservice
 //@   opt content=precise
 //@
 //@ // ---- C06 / C05: signatures on released keys, Shutter-service flavour --------------------------------
-//@ const MAXMSG = 1048576
+//@ const MAXMSG = 2147483647
 //@ pred wfKeysS(keys) := keys != nil && len(keys.Keys) <= MAXMSG && (forall i :: 0 <= i && i < len(keys.Keys) ==> keys.Keys[i] != nil)
 //@ pred wfExtraS(x) := x != nil && len(x.SignerIndices) <= MAXMSG && len(x.Signature) <= MAXMSG
 //@ pred signersOKS(x, n) := (forall i :: 0 <= i && i < len(x.SignerIndices) ==> x.SignerIndices[i] < n) && (forall i :: 1 <= i && i < len(x.SignerIndices) ==> x.SignerIndices[i - 1] < x.SignerIndices[i])
